@@ -24,6 +24,8 @@ def run(run, model):
     from . import marker, meta, c18
     run.do(marker.body_rules, model, "C02.body-unheld", None)
     run.do(meta.provenance_rule, model, "C02.inherited-post", "__postconditions__", "postconditions")
+    from . import c04
+    run.do(c04.override_target, model, "C02.inherited-post-target", ("__postconditions__", "__postcondition_snapshots__"))
     run.do(c18.find_rule, model, "C02.single-checker")
     run.do(gates.c08_place, model, "C02.old-available")
     run.minimum("C02.gate", 2)
